@@ -15,6 +15,8 @@ class Module:
         with open(self.path) as f:
             self.src = f.read()
         self.tree = ast.parse(self.src, self.path)
+        from . import canon
+        self.renamed = canon.normalise(name, self.tree)          # locals renamed back to the names the pinned tree uses (see canon.py)
         self.relpath = 'skoolkit/%s.py' % name
         self.assigns = {}      # name -> list of value nodes at module level
         self.funcs = {}
